@@ -184,7 +184,10 @@ class SymbolicPath:
                 ob.result = "unknown"
                 ob.detail += " z3:" + str(self.solver.reason_unknown())
                 if self.session.keep_smt2:
-                    ob.smt2 = self.solver.to_smt2()
+                    try:
+                        ob.smt2 = self.solver.to_smt2()
+                    except Exception:
+                        ob.smt2 = None
         finally:
             self.solver.pop()
         ob.seconds = time.time() - t0
